@@ -22,13 +22,22 @@ CHECKS = {
 
 CHECKS["C02"] = dict(
     category="proof", design_ref="DESIGN.md §6 C02", engine="parser",
-    technique="Lean 4 theorem (encode/parse round trip for every pipeline, parser total) + differential correspondence with resp.ParseStream under arbitrary chunking",
+    technique="Lean 4 theorems (encode/parse round trip for every pipeline; for arbitrary bytes: shape, soundness of every delivered command, named error cases; "
+              "fragmentation independence of a chunked reader model) + differential correspondence with resp.ParseStream under arbitrary chunking",
     text="Kernel-checked theorems Resp.C02_roundtrip and C02_compositional: the model of resp/parser.go's state machine decodes every pipeline of "
          "commands over arbitrary byte strings into exactly the encoded arguments and resets fully between commands; every model access is "
-         "checked, so the model has no crash outcome. Tied to the code by feeding well-formed and malformed streams to resp.ParseStream whole, "
-         "byte by byte and in random chunks and comparing the full event list with the model's.",
-    note="Trusted: Lean kernel (propext, Classical.choice, Quot.sound), harness/driver, bufio/io.ReadFull semantics. Bulk arguments below 512 MiB. "
-         "Isolation between connections (nothing executed after a protocol error) is exercised through the serve engine under C03.",
+         "checked, so the model has no crash outcome. For ARBITRARY input bytes (Props/C02.lean): C02.stream_ends_with_one_eof / shape (what the Handle loop "
+         "consumes is data events then exactly one err or eof; nothing after the first err is looked at; naive_shape_false records that the raw parser "
+         "list does continue after an error, as parser.go does), prefix_stable and isolation (any junk after a well-formed pipeline leaves its decoding "
+         "unchanged; a pipeline followed by an err-yielding frame executes exactly the pipeline), no_spurious_command / executed_command_has_frame (every "
+         "array the parser delivers from any input is backed by a contiguous frame of the input whose header numeral is the element count and whose bulk "
+         "numerals are the payload lengths), and the named malformed frames each yield err in any array state (length not fitting int64, above 512 MiB, "
+         "negative other than -1, non-numeric, LF without CR, bare LF, bulk body without CR LF). C02.fragmentation_independent: the incremental reader of "
+         "Resp/Chunked.lean (ReadBytes / ReadFull over a buffer carried between reads) yields for every list of chunks exactly parseLoop of the concatenation. "
+         "Tied to the code by feeding well-formed and malformed streams to resp.ParseStream whole, byte by byte and in random chunks and comparing the full "
+         "event list with the model's; the driver also runs the chunked reader on the very chunk boundaries the harness's reader handed out (field k= of each line).",
+    note="Trusted: Lean kernel (propext, Classical.choice, Quot.sound), harness/driver, that bufio.Reader.ReadBytes / io.ReadFull implement the modelled reader. "
+         "Bulk arguments below 512 MiB. Isolation between connections (nothing executed after a protocol error) is also exercised through the serve engine.",
 )
 
 CHECKS["C01"] = dict(
